@@ -42,6 +42,7 @@
 #include <sys/stat.h>
 #include <sanitizer/lsan_interface.h>
 #include <sanitizer/common_interface_defs.h>
+#include <sanitizer/allocator_interface.h>
 
 /* ------------------------------------------------------------------ */
 /* allocation tracker                                                  */
@@ -672,31 +673,51 @@ static void snap_player(struct context_data *ctx)
 			snap_add(p->xc_data[i].extra, K_CHEXTRA);
 }
 
+/* number of elements the block really holds; a count field larger than that
+ * means xmp_release_module will read past the block */
+static int snap_overread;
+static int cap(const void *p, size_t elem, int count, const char *what)
+{
+	size_t have = __sanitizer_get_allocated_size(p) / elem;
+	if (count > 0 && (size_t)count > have) {
+		printf("viol overread:%s count field %d exceeds the %lu elements of the table that xmp_release_module will walk\n",
+		       what, count, (unsigned long)have);
+		fflush(stdout);
+		snap_overread++;
+		return (int)have;
+	}
+	return count;
+}
+
 static void snap_module(struct context_data *ctx)
 {
 	struct module_data *m = &ctx->m;
 	struct xmp_module *mod = &m->mod;
-	int i;
+	int i, n;
 	if (mod->xxt != NULL) {
 		snap_add(mod->xxt, K_XXT);
-		for (i = 0; i < mod->trk; i++)
+		n = cap(mod->xxt, sizeof(mod->xxt[0]), mod->trk, "xxt");
+		for (i = 0; i < n; i++)
 			snap_add(mod->xxt[i], K_TRACK);
 	}
 	if (mod->xxp != NULL) {
 		snap_add(mod->xxp, K_XXP);
-		for (i = 0; i < mod->pat; i++)
+		n = cap(mod->xxp, sizeof(mod->xxp[0]), mod->pat, "xxp");
+		for (i = 0; i < n; i++)
 			snap_add(mod->xxp[i], K_PATTERN);
 	}
 	if (mod->xxi != NULL) {
 		snap_add(mod->xxi, K_XXI);
-		for (i = 0; i < mod->ins; i++) {
+		n = cap(mod->xxi, sizeof(mod->xxi[0]), mod->ins, "xxi");
+		for (i = 0; i < n; i++) {
 			snap_add(mod->xxi[i].sub, K_SUB);
 			snap_add(mod->xxi[i].extra, K_INSEXTRA);
 		}
 	}
 	if (mod->xxs != NULL) {
 		snap_add(mod->xxs, K_XXS);
-		for (i = 0; i < mod->smp; i++)
+		n = cap(mod->xxs, sizeof(mod->xxs[0]), mod->smp, "xxs");
+		for (i = 0; i < n; i++)
 			if (mod->xxs[i].data != NULL)
 				snap_add(mod->xxs[i].data - 4, K_SMPDATA);
 	}
@@ -704,7 +725,8 @@ static void snap_module(struct context_data *ctx)
 	snap_add(m->midi, K_MIDI);
 	if (m->scan_cnt != NULL) {
 		snap_add(m->scan_cnt, K_SCANCNT);
-		for (i = 0; i < mod->len; i++)
+		n = cap(m->scan_cnt, sizeof(m->scan_cnt[0]), mod->len, "scan_cnt");
+		for (i = 0; i < n; i++)
 			snap_add(m->scan_cnt[i], K_SCANROW);
 	}
 	snap_add(ctx->p.scan, K_SCAN);
@@ -717,12 +739,14 @@ static void snap_module(struct context_data *ctx)
 			struct med_module_extras *me = (struct med_module_extras *)m->extra;
 			if (me->vol_table != NULL) {
 				snap_add(me->vol_table, K_MODEXTRA_TAB);
-				for (i = 0; i < mod->ins; i++)
+				n = cap(me->vol_table, sizeof(me->vol_table[0]), mod->ins, "med_vol_table");
+				for (i = 0; i < n; i++)
 					snap_add(me->vol_table[i], K_MODEXTRA_ENT);
 			}
 			if (me->wav_table != NULL) {
 				snap_add(me->wav_table, K_MODEXTRA_TAB);
-				for (i = 0; i < mod->ins; i++)
+				n = cap(me->wav_table, sizeof(me->wav_table[0]), mod->ins, "med_wav_table");
+				for (i = 0; i < n; i++)
 					snap_add(me->wav_table[i], K_MODEXTRA_ENT);
 			}
 		}
